@@ -48,6 +48,7 @@ type exp1 struct {
 	ServerCert bool   `json:"server_has_certificate"`
 	MustSecure bool   `json:"client_requires_security"`
 	Insecure   bool   `json:"client_insecure_flag"`
+	UDPSecret  bool   `json:"udp_shared_secret"` // packets AES-encrypted with a shared secret: still not a "secure" carrier
 	Pre        int    `json:"padding_before"`
 	Post       int    `json:"padding_after"`
 	Key        uint64 `json:"key"`
@@ -65,6 +66,9 @@ func runExp1(d exp1) (problem string, inconclusive bool) {
 		ClientCA: pki.CA.CertPEM, HostSpelling: "localhost",
 		Channels:  []vlib.ChannelSpec{{Name: "data", Target: tgt.URL()}},
 		Listeners: []vlib.ListenerSpec{{Channel: "data"}}}
+	if d.UDPSecret {
+		cfg.Secret, cfg.ClientSecret = "sh4red", "sh4red"
+	}
 	if d.ServerCert {
 		host := "localhost"
 		if d.Carrier == vlib.CarDNS {
@@ -147,7 +151,7 @@ func runExp1(d exp1) (problem string, inconclusive bool) {
 		return "session established although security was required and is not available; " + ctx, false
 	}
 	// detector sanity: without any protection the marker must be visible to the observer (DNS encodes payloads)
-	if established && !secureExpected && haveWire && d.Carrier != vlib.CarDNS && !seen {
+	if established && !secureExpected && haveWire && d.Carrier != vlib.CarDNS && !d.UDPSecret && !seen {
 		return "", true
 	}
 	return "", false
@@ -171,6 +175,9 @@ func exp1Matrix(withDNS bool) []exp1 {
 						continue // StartTLS over standard streams has no host name to verify: only with the insecure flag
 					}
 					out = append(out, exp1{Carrier: car, ServerCert: sc, MustSecure: ms, Insecure: ins})
+					if car == vlib.CarUDP {
+						out = append(out, exp1{Carrier: car, ServerCert: sc, MustSecure: ms, Insecure: ins, UDPSecret: true})
+					}
 				}
 			}
 		}
